@@ -111,7 +111,7 @@ Proof.
     unfold drain_db. destruct (dbg db) eqn:B; cbn [fst stor dbs].
     + constructor; cbn [stor dbs].
       * apply Forall_upd; [assumption|]. constructor; cbn; auto.
-      * pose proof (nopen_upd _ _ _ (set_bg db false) E) as NU. unfold isopen in *. cbn in NU.
+      * pose proof (nopen_upd _ _ _ (bump (set_bg db false)) E) as NU. unfold isopen in *. cbn in NU.
         rewrite locked_apply_muts. lia.
       * intros _. rewrite hasdb_apply_muts. apply Hhas. intros Z; rewrite Z in E; destruct d; discriminate.
     + rewrite (upd_id _ _ _ _ E). constructor; assumption.
@@ -251,7 +251,8 @@ Lemma ro_rejects_writes_serves_reads : forall s d db h m,
   let o := snd (step s (CApi d h m)) in
   (recv m = RDb -> takes_write_lock m = true -> o = ErrReadOnly /\ s' = s) /\
   (recv m = RDb -> db_read m = true -> o = Ok /\ stor s' = stor s) /\
-  (m <> DbClose -> stor s' = stor s).
+  (m <> DbClose -> m <> ItRelease -> stor s' = stor s) /\
+  (dmode db = ROpened -> mlog (stor s') = mlog (stor s)).
 Proof.
   intros s d db h m R E M s' o.
   pose proof (reachable_wf _ R) as W.
@@ -266,9 +267,11 @@ Proof.
   - destruct (Wr H H0) as (-> & -> & _). rewrite NC. cbn. rewrite (upd_id _ _ _ _ E). apply state_eta.
   - destruct (Rd H H0) as (_ & -> & _). reflexivity.
   - destruct (Rd H H0) as (-> & _ & MD). rewrite MD, NC. reflexivity.
-  - intros NCl. destruct Ms as [->|(-> & _)]; [|congruence].
+  - intros NCl NRel. destruct Ms as [->|([->| ->] & _)]; [|congruence|congruence].
     destruct MT as [MT|[(M0 & _)|(_ & _ & ->)]]; [| rewrite M0 in M; discriminate | congruence].
     rewrite MT, NC. reflexivity.
+  - intros RO. destruct Ms as [->|(_ & SW)]; [|congruence].
+    destruct (negb (is_closed (dmode db)) && is_closed (dmode db')); reflexivity.
 Qed.
 
 (* ---------------------------------------------------------------- quiet states issue no mutation *)
@@ -325,15 +328,27 @@ Proof.
   apply (run_quiet (COpen true seek :: l) s W (unlocked_quiet _ W L)). exact NR.
 Qed.
 
-(* a DB switched to read-only whose seek compaction is disabled: once the background work has drained, nothing
-   done afterwards (short of re-opening read-write) issues a mutation *)
+(* every real iterator of the DB has been released *)
+Definition iters_released (db : dbrec) : bool :=
+  forallb (fun i => match ik i with IEmpty => true | IReal _ => irel i end) (diters db).
+
+Lemma iters_released_pins : forall db v, iters_released db = true -> forallb (pins_current v) (diters db) = true.
+Proof.
+  intros db v H. unfold iters_released in H. rewrite forallb_forall in *. intros i I. specialize (H i I).
+  unfold pins_current. destruct (ik i); [now rewrite H|reflexivity].
+Qed.
+
+(* a DB switched to read-only whose seek compaction is disabled: once the iterators obtained before have been
+   released and the background work has drained, nothing done afterwards (short of re-opening read-write)
+   issues a mutation *)
 Lemma ro_quiesces : forall s d db l,
   reachable s -> nth_error (dbs s) d = Some db -> dmode db = RSwitched -> dseek db = false ->
+  iters_released db = true ->
   forallb no_rw_open l = true ->
   let s1 := fst (step s (CDrain d)) in
   mlog (stor (run s1 l)) = mlog (stor s1).
 Proof.
-  intros s d db l R E M SK NR s1.
+  intros s d db l R E M SK IR NR s1.
   pose proof (reachable_wf _ R) as W.
   assert (W1 : wf s1) by (apply step_wf; assumption).
   apply run_quiet; [assumption| |assumption].
@@ -345,11 +360,12 @@ Proof.
   destruct (dbg db) eqn:B; cbn [fst dbs] in E'.
   - destruct (PeanoNat.Nat.eq_dec d' d) as [->|N].
     + rewrite (nth_error_upd_same _ _ _ _ _ E) in E'. injection E' as <-.
-      unfold quietb; cbn. rewrite M, SK. reflexivity.
+      unfold quietb; cbn. rewrite M, SK. cbn. apply iters_released_pins. exact IR.
     + rewrite nth_error_upd_other in E' by congruence. eauto.
   - rewrite (upd_id _ _ _ _ E) in E'.
     destruct (PeanoNat.Nat.eq_dec d' d) as [->|N]; [|eauto].
-    rewrite E in E'. injection E' as <-. unfold quietb. now rewrite M, SK, B.
+    rewrite E in E'. injection E' as <-. unfold quietb. rewrite M, SK, B. cbn.
+    apply iters_released_pins. exact IR.
 Qed.
 
 (* ---------------------------------------------------------------- released handles report their own errors *)
@@ -380,7 +396,7 @@ Proof.
   assert (C : negb (is_closed (dmode db)) && is_closed (dmode db) = false) by (destruct (is_closed (dmode db)); reflexivity).
   cbn [dmode set_iters]. rewrite C. rewrite apply_muts_nil. repeat split.
   intros m' Hm'.
-  set (i' := mkIter (ik i) true ErrIterReleased (ihasr i)).
+  set (i' := mkIter (ik i) true ErrIterReleased (ihasr i) (iver i)).
   set (db' := set_iters db (upd (diters db) h i')).
   assert (E' : nth_error (upd (dbs s) d db') d = Some db') by (eapply nth_error_upd_same; eauto).
   assert (H' : nth_error (diters db') h = Some i') by (cbn; eapply nth_error_upd_same; eauto).
